@@ -459,6 +459,155 @@ func gen(c *ex.Ctx) {
 		sb.WriteString(ex.LeanStr(f))
 	}
 	sb.WriteString("]\n\n")
+	// --- the writer's prologue / cursor-only branch / epilogue as guarded writes ---
+	type gw struct {
+		guard [][2]string // (negated "1"/"0", atom)
+		what  string
+	}
+	strip := func(t string) string {
+		t = strings.ReplaceAll(t, "w.vx.", "")
+		if strings.HasPrefix(t, "[]byte(") && strings.HasSuffix(t, ")") {
+			t = t[len("[]byte(") : len(t)-1]
+		}
+		return t
+	}
+	sk0 := &sk{c: c}
+	var conj func(e ast.Expr) [][2]string
+	conj = func(e ast.Expr) [][2]string {
+		switch x := e.(type) {
+		case *ast.BinaryExpr:
+			if x.Op == token.LAND {
+				return append(conj(x.X), conj(x.Y)...)
+			}
+		case *ast.UnaryExpr:
+			if x.Op == token.NOT {
+				return [][2]string{{"1", strip(sk0.src(x.X))}}
+			}
+		case *ast.ParenExpr:
+			return conj(x.X)
+		}
+		return [][2]string{{"0", strip(sk0.src(e))}}
+	}
+	// `X.WriteString(arg)` / `return w.w.Write([]byte(arg))` / `return 0, nil`
+	written := func(st ast.Stmt) (string, bool) {
+		var e ast.Expr
+		switch x := st.(type) {
+		case *ast.ExprStmt:
+			e = x.X
+		case *ast.ReturnStmt:
+			if len(x.Results) == 2 {
+				if l, ok := x.Results[0].(*ast.BasicLit); ok && l.Value == "0" {
+					return "", true
+				}
+			}
+			if len(x.Results) != 1 {
+				return "", false
+			}
+			e = x.Results[0]
+		default:
+			return "", false
+		}
+		call, ok := e.(*ast.CallExpr)
+		if !ok || len(call.Args) != 1 {
+			return "", false
+		}
+		fn := sk0.src(call.Fun)
+		if !(strings.HasSuffix(fn, ".WriteString") || strings.HasSuffix(fn, ".Write")) {
+			return "", false
+		}
+		return strip(sk0.src(call.Args[0])), true
+	}
+	guarded := func(stmts []ast.Stmt, where string) []gw {
+		var out []gw
+		for _, st := range stmts {
+			if ifs, ok := st.(*ast.IfStmt); ok && ifs.Init == nil && ifs.Else == nil && len(ifs.Body.List) == 1 {
+				if wh, ok := written(ifs.Body.List[0]); ok {
+					out = append(out, gw{conj(ifs.Cond), wh})
+					continue
+				}
+			}
+			if wh, ok := written(st); ok {
+				out = append(out, gw{nil, wh})
+				continue
+			}
+			errs = append(errs, where+": statement of unknown shape: "+sk0.src(st))
+			out = append(out, gw{[][2]string{{"0", "?"}}, "?"})
+		}
+		return out
+	}
+	isBufEmpty := func(st ast.Stmt) *ast.IfStmt {
+		ifs, ok := st.(*ast.IfStmt)
+		if ok && sk0.src(ifs.Cond) == "w.buf.Len()==0" && ifs.Else == nil {
+			return ifs
+		}
+		return nil
+	}
+	var wsPro, flCur, flEpi []gw
+	if wWriteString != nil && len(wWriteString.Body.List) == 3 && isBufEmpty(wWriteString.Body.List[1]) != nil {
+		wsPro = guarded(isBufEmpty(wWriteString.Body.List[1]).Body.List, "writer.WriteString")
+	} else {
+		errs = append(errs, "writer.WriteString: unknown shape")
+	}
+	if wFlush != nil && len(wFlush.Body.List) >= 2 && isBufEmpty(wFlush.Body.List[0]) != nil {
+		b := isBufEmpty(wFlush.Body.List[0]).Body.List
+		if sw, ok := b[0].(*ast.SwitchStmt); ok && len(b) == 1 && sw.Tag == nil && sw.Init == nil {
+			for _, cc := range sw.Body.List {
+				cl := cc.(*ast.CaseClause)
+				wh, ok := "", false
+				if len(cl.Body) == 1 {
+					wh, ok = written(cl.Body[0])
+				}
+				if !ok || len(cl.List) > 1 {
+					errs = append(errs, "writer.Flush: cursor-only case of unknown shape")
+					wh = "?"
+				}
+				g := [][2]string(nil)
+				if len(cl.List) == 1 {
+					g = conj(cl.List[0])
+				}
+				flCur = append(flCur, gw{g, wh})
+			}
+		} else {
+			errs = append(errs, "writer.Flush: cursor-only branch of unknown shape")
+		}
+		var epi []ast.Stmt
+		for _, st := range wFlush.Body.List[1:] {
+			if _, ok := st.(*ast.DeferStmt); ok {
+				continue // buf.Reset / mutex
+			}
+			if es, ok := st.(*ast.ExprStmt); ok && sk0.src(es.X) == "w.mut.Lock()" {
+				continue
+			}
+			if rs, ok := st.(*ast.ReturnStmt); ok && len(rs.Results) == 1 && sk0.src(rs.Results[0]) == "w.w.Write(w.buf.Bytes())" {
+				continue // the buffer goes on the wire
+			}
+			epi = append(epi, st)
+		}
+		flEpi = guarded(epi, "writer.Flush")
+	} else {
+		errs = append(errs, "writer.Flush: unknown shape")
+	}
+	leanGW := func(name, doc string, l []gw) {
+		fmt.Fprintf(&sb, "/-- %s -/\ndef %s : List (List (Bool × String) × String) := [", doc, name)
+		for i, g := range l {
+			if i > 0 {
+				sb.WriteString(",")
+			}
+			sb.WriteString("\n  ([")
+			for j, a := range g.guard {
+				if j > 0 {
+					sb.WriteString(", ")
+				}
+				fmt.Fprintf(&sb, "(%s, %s)", map[string]string{"1": "true", "0": "false"}[a[0]], ex.LeanStr(a[1]))
+			}
+			fmt.Fprintf(&sb, "], %s)", ex.LeanStr(g.what))
+		}
+		sb.WriteString("]\n\n")
+	}
+	leanGW("wsPrologue", "`WriteString` on an empty buffer: `if G { buf.WriteString(X) }` in source order; guard = conjunction of (negated?, atom).", wsPro)
+	leanGW("flushCursorOnly", "`Flush` on an empty buffer: the switch cases in order (what is written directly; \"\" = nothing).", flCur)
+	leanGW("flushEpilogue", "`Flush` otherwise: what is appended to the buffer before it goes on the wire.", flEpi)
+
 	sb.WriteString("def extractErrors : List String := [")
 	for i, e := range errs {
 		if i > 0 {
